@@ -307,18 +307,7 @@ namespace igris
 
         iterator insert(const_iterator pos, const T &value)
         {
-            // TODO insert optimization
-            size_t _pos = pos - m_data;
-
-            reserve(m_size + 1);
-            m_size++;
-
-            iterator first = m_data + _pos;
-            iterator last = std::prev((iterator)end());
-            std::move_backward(first, last, (iterator)end());
-            *first = value;
-
-            return first;
+            return emplace(pos, value);
         }
 
         iterator insert(iterator pos, const_iterator first, const_iterator last)
